@@ -420,7 +420,7 @@ impl<'a, T: Read + Write + Seek> PointCloudWriter<'a, T> {
             Error::invalid("Number of values does not match prototype length")?
         }
 
-        // Go over all values to validate and extract min/max values
+        // Go over all values to validate them before anything is modified
         for (i, p) in self.prototype.iter().enumerate() {
             let value = &values[i];
 
@@ -454,7 +454,10 @@ impl<'a, T: Read + Write + Seek> PointCloudWriter<'a, T> {
                     "Value at index {i} is outside of the min/max range of the prototype"
                 ))?
             }
+        }
 
+        // Go over all values again to extract min/max values
+        for (i, p) in self.prototype.iter().enumerate() {
             // Update cartesian bounds
             if p.name == RecordName::CartesianX
                 || p.name == RecordName::CartesianY
